@@ -159,6 +159,7 @@ impl Node {
             self.repl_log.push(m.clone());
         }
         if let (Some(tx), Some(fut)) = (self.repl_fwd.as_mut(), self.repl_fut.as_mut()) {
+            let _watch = super::hang::guard("replication-loop", &m);
             tx.try_send(m).expect("forward channel full");
             poll_once(fut);
         }
@@ -187,6 +188,7 @@ impl Node {
             self.sup_log.push(m.clone());
         }
         if let (Some(tx), Some(fut)) = (self.sup_fwd.as_mut(), self.sup_fut.as_mut()) {
+            let _watch = super::hang::guard("supervisor", &m);
             tx.try_send(m).expect("forward channel full");
             poll_once(fut);
         }
@@ -205,6 +207,7 @@ impl Node {
     pub fn declutter(&mut self) {
         self.enter();
         self.pump();
+        let _watch = super::hang::guard("snapshot-timer", "declutter");
         disk_ops::verif_declutter(&self.dbs);
     }
 
